@@ -95,7 +95,7 @@ pub fn oracle(spec_: &RespSpec, m: &Mutated, head_len: usize, case: &RespCase, o
     Ok(())
 }
 
-fn flat(segs: &[Seg]) -> Vec<u8> {
+pub fn flat(segs: &[Seg]) -> Vec<u8> {
     let mut v = vec![];
     for s in segs {
         if let Seg::Data(d) = s {
@@ -106,7 +106,7 @@ fn flat(segs: &[Seg]) -> Vec<u8> {
 }
 
 /// split the data segments at flat offset `off` and insert `ins` there; drop everything after if `cut`
-fn splice(segs: &[Seg], off: usize, ins: Option<Seg>, cut: bool) -> Vec<Seg> {
+pub fn splice(segs: &[Seg], off: usize, ins: Option<Seg>, cut: bool) -> Vec<Seg> {
     let mut out = vec![];
     let mut pos = 0;
     let mut done = false;
